@@ -241,6 +241,36 @@ def _histories(rec, acct, TdmsFile, path, data, ex, d, valid):
                     rec.violation('caller_stream_closed', '%s(%s): the caller\'s stream was closed once the result / exception '
                                   'of the call was released' % (api, sname))
                     return
+            # ---- the documented constructor itself, in its argument combinations: nothing open after close() / with-block
+            for kw in ({}, {'read_metadata_only': True}, {'keep_open': True}, {'read_metadata_only': True, 'keep_open': True}):
+                for use_with in (False, True):
+                    before = open_fds(d)
+                    if stream is not None:
+                        stream.seek(0)
+                    err = None
+                    tf = None
+                    try:
+                        if use_with:
+                            with TdmsFile(src(), **kw) as tf:
+                                pass
+                        else:
+                            tf = TdmsFile(src(), **kw)
+                            tf.close()
+                    except Exception as e:      # noqa
+                        err = e
+                        acct.raised += 1
+                    if err is not None and kw.get('keep_open'):
+                        # the constructor form of TdmsFile.open() raising: outside the statement (there is nothing to close)
+                        rec.stat('open_raised')
+                        del tf, err
+                        continue
+                    acct.expect_clean(before, 'constructor:' + ('raised' if err else 'closed'),
+                                      'TdmsFile(%s, %s) %s' % (sname, ', '.join('%s=True' % k for k in kw), 'raised ' + describe_exc(err)
+                                                               if err else ('with-block left' if use_with else 'close() called')))
+                    if stream is not None and stream.closed:
+                        rec.violation('caller_stream_closed', 'TdmsFile(%s, ...) closed the caller\'s stream' % sname)
+                        return
+                    del tf, err
             # ---- with TdmsFile.open(...)
             before = open_fds(d)
             if stream is not None:
